@@ -21,6 +21,8 @@ import (
 	"github.com/tuneinsight/lattigo/v6/circuits/ckks/comparison"
 	"github.com/tuneinsight/lattigo/v6/circuits/ckks/inverse"
 	"github.com/tuneinsight/lattigo/v6/circuits/ckks/minimax"
+	"github.com/tuneinsight/lattigo/v6/circuits/ckks/mod1"
+	"github.com/tuneinsight/lattigo/v6/circuits/ckks/polynomial"
 	"github.com/tuneinsight/lattigo/v6/core/rlwe"
 	"github.com/tuneinsight/lattigo/v6/ring"
 	"github.com/tuneinsight/lattigo/v6/schemes/ckks"
@@ -35,6 +37,7 @@ type compCfg struct {
 	InLvl   int    `json:"inlvl"`   // level of the input ciphertext(s)
 	MinIn   int    `json:"minin"`   // MinimumInputLevel announced by the bootstrapper
 	LogMax  int    `json:"logmax"`  // inverse: the domain reaches 2^logmax (0: no interval normalisation)
+	Scaling int    `json:"scaling"` // mod1: output scaling in quarters (4: 1, 8: 2, 2: 1/2); comp names the mod1 type
 }
 
 // CompSet describes a parameter set to the specification.
@@ -51,12 +54,14 @@ var compLits = map[string]ckks.ParametersLiteral{
 	"p90":   {LogN: 9, LogQ: []int{55, 55, 45, 45, 45, 45, 45, 45, 45, 45, 45, 45, 45, 45}, LogP: []int{60, 60}, LogDefaultScale: 90},
 	"p90ci": {LogN: 9, LogQ: []int{55, 55, 45, 45, 45, 45, 45, 45, 45, 45, 45, 45, 45, 45}, LogP: []int{60, 60}, LogDefaultScale: 90, RingType: ring.ConjugateInvariant},
 	"p45":   {LogN: 9, LogQ: []int{55, 45, 45, 45, 45, 45, 45, 45, 45, 45}, LogP: []int{60}, LogDefaultScale: 45},
+	// the repository's mod1 test set, at half the ring degree
+	"m45": {LogN: 9, LogQ: []int{55, 60, 60, 60, 60, 60, 60, 60, 60, 60, 60, 60, 60, 53}, LogP: []int{61, 61, 61, 61, 61}, Xs: ring.Ternary{H: 192}, LogDefaultScale: 45},
 }
 
 // CompSets is printed by `vrun c13 compsets`.
 func CompSets() []CompSet {
 	out := []CompSet{}
-	for _, n := range []string{"p90", "p90ci", "p45"} {
+	for _, n := range []string{"p90", "p90ci", "p45", "m45"} {
 		p, err := ckks.NewParametersFromLiteral(compLits[n])
 		tr.Must(err)
 		out = append(out, CompSet{n, p.MaxLevel(), p.LevelsConsumedPerRescaling(), p.LogDefaultScale(), p.LogN(), p.RingType() == ring.ConjugateInvariant})
@@ -220,6 +225,9 @@ func (c *compCtx) decrypt(ct *rlwe.Ciphertext) []*big.Float {
 func sgn(x *big.Float) *big.Float { return bf(float64(x.Sign())) }
 
 func (c *compCtx) runComposite(cf compCfg, rng *rand.Rand) ev {
+	if cf.Circuit == "mod1" {
+		return c.runMod1(cf, rng)
+	}
 	p := c.p
 	slots := p.MaxSlots()
 	e := ev{"ev": "comp", "cfg": cf, "set": cf.Set, "circuit": cf.Circuit, "comp": cf.Comp, "inlvl": cf.InLvl, "minin": cf.MinIn,
@@ -447,4 +455,87 @@ func CompositeMain(args []string) int {
 	res := tr.Result{Events: w.N, Cases: n}
 	res.Print()
 	return 0
+}
+
+// mod1 configurations of the repository's test (K of the continuous cosine reduced)
+var mod1Lits = map[string]mod1.ParametersLiteral{
+	"sinarc": {LevelQ: 12, Mod1Type: mod1.SinContinuous, LogMessageRatio: 8, K: 14, Mod1Degree: 127, Mod1InvDegree: 7, LogScale: 60},
+	"cosd":   {LevelQ: 12, Mod1Type: mod1.CosDiscrete, LogMessageRatio: 8, K: 12, Mod1Degree: 30, DoubleAngle: 3, LogScale: 60},
+	"cosc":   {LevelQ: 12, Mod1Type: mod1.CosContinuous, LogMessageRatio: 4, K: 40, Mod1Degree: 63, DoubleAngle: 3, LogScale: 60},
+}
+
+// runMod1 follows the preparation of the repository's test (scale the message to Q0 / ratio, normalise by 1/(K*QDiff))
+// and evaluates x mod 1 times `scaling`; the reference is computed with float64 sine / arcsine.
+func (c *compCtx) runMod1(cf compCfg, rng *rand.Rand) ev {
+	p := c.p
+	e := ev{"ev": "comp", "cfg": cf, "set": cf.Set, "circuit": cf.Circuit, "comp": cf.Comp, "inlvl": cf.InLvl, "minin": 0,
+		"maxlevel": p.MaxLevel(), "lpr": p.LevelsConsumedPerRescaling(), "logscale": p.LogDefaultScale(), "logn": p.LogN(), "ci": false,
+		"depths": []int{}, "alpha": 0, "boots": []int{}, "below": 0, "outlvl": -1, "scaleok": false, "precideal": -200, "precplain": 200, "plainideal": 200}
+	lit := mod1Lits[cf.Comp]
+	mp, err := mod1.NewParametersFromLiteral(p, lit)
+	tr.Must(err)
+	scaling := float64(cf.Scaling) / 4
+	n := p.MaxSlots()
+	vals := make([]float64, n)
+	K := mp.K - 1
+	Q := mp.QDiff * mp.MessageRatio()
+	for i := range vals {
+		vals[i] = math.Round((rng.Float64()*2-1)*K)*Q + (rng.Float64()*2 - 1)
+	}
+	vals[0] = K*Q + 0.5
+	vals[1] = -K*Q - 0.5
+	pt := ckks.NewPlaintext(p, cf.InLvl)
+	tr.Must(c.ecd.Encode(vals, pt))
+	ct, err := c.enc.EncryptNew(pt)
+	tr.Must(err)
+	var out *rlwe.Ciphertext
+	var pan bool
+	var msg string
+	err, pan, msg = guarded(func() error {
+		sc := rlwe.NewScale(math.Exp2(math.Round(math.Log2(float64(p.Q()[0]) / mp.MessageRatio()))))
+		sc = sc.Div(ct.Scale)
+		if e := c.eval.ScaleUp(ct, rlwe.NewScale(math.Round(sc.Float64())), ct); e != nil {
+			return e
+		}
+		sc = mp.ScalingFactor().Div(ct.Scale)
+		sc = sc.Div(rlwe.NewScale(mp.MessageRatio()))
+		if e := c.eval.ScaleUp(ct, rlwe.NewScale(math.Round(sc.Float64())), ct); e != nil {
+			return e
+		}
+		if e := c.eval.Mul(ct, 1/(mp.K*mp.QDiff), ct); e != nil {
+			return e
+		}
+		if e := c.eval.Rescale(ct, ct); e != nil {
+			return e
+		}
+		me := mod1.NewEvaluator(c.eval, polynomial.NewEvaluator(p, c.eval), mp)
+		var e error
+		if cf.Scaling == 4 && cf.InLvl%2 == 0 {
+			out, e = me.EvaluateNew(ct)
+		} else {
+			out, e = me.EvaluateAndScaleNew(ct, complex(scaling, 0))
+		}
+		return e
+	})
+	e["err"], e["panic"], e["msg"] = err != nil, pan, msg
+	if err == nil && !pan && out != nil {
+		e["outlvl"] = out.Level()
+		e["scaleok"] = true // the scale of the output is whatever the evaluation records; the values below are decoded with it
+		have := make([]float64, n)
+		tr.Must(c.ecd.Decode(c.dec.DecryptNew(out), have))
+		worst := 200
+		for i := range vals {
+			x := vals[i] / mp.MessageRatio() / mp.QDiff
+			x = math.Sin(2 * math.Pi * x)
+			if lit.Mod1InvDegree > 0 {
+				x = math.Asin(x)
+			}
+			x = x * mp.MessageRatio() * mp.QDiff / (2 * math.Pi) * scaling
+			if v := agree(bf(have[i]), bf(x)); v < worst {
+				worst = v
+			}
+		}
+		e["precideal"] = worst
+	}
+	return e
 }
